@@ -165,3 +165,32 @@ pub fn cursor() -> usize {
 pub fn script_len() -> usize {
     SCRIPT.with(|s| s.borrow().len())
 }
+
+/// After a drift: the depth-0 `call` events of the script that have not been reached yet.
+pub fn remaining_top_level_calls() -> Vec<Value> {
+    let cur = CUR.with(|c| c.get());
+    SCRIPT.with(|s| {
+        let s = s.borrow();
+        // find the depth at the cursor by scanning the whole script
+        let mut depth: i64 = 0;
+        let mut out = Vec::new();
+        for (i, e) in s.iter().enumerate() {
+            let k = e["e"].as_str().unwrap_or("");
+            if k == "call" {
+                if depth == 0 && i >= cur {
+                    let mut c = e.clone();
+                    if let Some(m) = c.as_object_mut() {
+                        m.remove("x");
+                    }
+                    out.push(c);
+                }
+                depth += 1;
+            } else if k == "cb" {
+                depth += 1;
+            } else if k == "ret" || k == "cbx" {
+                depth -= 1;
+            }
+        }
+        out
+    })
+}
